@@ -40,23 +40,29 @@ Section C01.
     exists c2. split; [congruence|exact Hw2].
   Qed.
 
-  (* a word with expansions whose text has a "$((" that is not closed by "))" (bash runs it as a
-     command substitution, the parser reports arithmetic) is never approved, in any position *)
+  (* the two guards against parser blind spots: a word with expansions whose text has a "$((" not closed
+     by "))" (bash runs a command substitution where the parser saw arithmetic), and a word whose text
+     starts more substitutions than the parser reports below it, are never approved, in any position *)
   Lemma unclosed_arith_asks c b k ss fs ks : let t := T k ss fs ks in
     nonempty (children "parts" t) = true -> unclosed_arith (attr_d "value" t) = true ->
     In Ask (r_wp (ev t) b c).
   Proof.
-    intros t Hp Hu. subst t. rewrite wp_unfold. rewrite Hp, Hu. cbn [andb app]. left. reflexivity.
+    intros t Hp Hu. subst t. rewrite wp_unfold. unfold text_guards. rewrite Hp, Hu. cbn [andb app]. left. reflexivity.
+  Qed.
+
+  Lemma lost_substitution_asks c k ss fs ks : let t := T k ss fs ks in
+    substitutions_lost (attr_d "value" t) t = true -> In Ask (r_wp (ev t) false c).
+  Proof.
+    intros t Hl. subst t. rewrite wp_unfold. unfold text_guards. rewrite Hl, orb_true_r. cbn [andb negb].
+    apply in_or_app. left. apply in_or_app. right. left. reflexivity.
   Qed.
 
   Lemma unclosed_arith_cmd_asks c ss fs ks : let t := T $"arith-cmd" ss fs ks in
     unclosed_arith (attr_d "raw_content" t) = true -> walk c t <> Allow.
   Proof.
-    intros t Hu. subst t. rewrite walk_arithcmd, Hu. intro H. apply combine_allow in H.
-    rewrite Forall_forall in H. specialize (H Ask). assert (Hin : In Ask
-      (flat_map (fun e => r_exp (ev e) c) (children "expression" (T $"arith-cmd" ss fs ks)) ++ [Ask] ++
-       redirs_of simple astr mredir cdres injrisk rulematch c (T $"arith-cmd" ss fs ks))).
-    { apply in_or_app. right. left. reflexivity. }
-    specialize (H Hin). discriminate.
+    intros t Hu. subst t. rewrite walk_arithcmd. unfold text_guards. rewrite Hu. cbn [andb]. intro H. apply combine_allow in H.
+    rewrite Forall_forall in H. specialize (H Ask). assert (Hin : forall A B C, In Ask (A ++ ([Ask] ++ B) ++ C)).
+    { intros. apply in_or_app. right. apply in_or_app. left. left. reflexivity. }
+    specialize (H (Hin _ _ _)). discriminate.
   Qed.
 End C01.
